@@ -48,6 +48,13 @@ package archiver
 //@   ensures [sent-own] @C05 http.lastSentTarget() == http.reqTarget(old(item.url.request)) // C05: the only request sent for a node is the one the preprocessor attached to it
 //@   loop retry invariant [bodies-closed] @C16 http.nOpened() - io.nCloses() == old(http.nOpened() - io.nCloses()) // C16: retry paths drain and close response bodies
 //@   ensures [one-body-left] @C16 http.nOpened() - io.nCloses() <= old(http.nOpened() - io.nCloses()) + 1 // C16: no response body ... remains open (at most the accepted response, handed to the post-processor which closes it)
+//@   local waitedHost string = ""
+//@   local didWait int = 0
+//@   after Wait(globalBucketManager)#1: waitedHost = req.URL.Host; didWait = 1
+//@   assert Wait(globalBucketManager)#1: [bucket-key] @C13 arg1 == req.URL.Host // C13: requests to a host (the request's host[:port]) draw from that host's bucket
+//@   assert AdjustOnFailure(globalBucketManager)#1: [same-bucket] @C13 didWait == 1 ==> arg1 == waitedHost // C13: a 429-class / 5xx answer is reported to the bucket the request drew its token from
+//@   assert OnSuccess(globalBucketManager)#1: [same-bucket] @C13 didWait == 1 ==> arg1 == waitedHost // C13: success is reported to the same bucket
+//@   loop retry invariant [bucket-host] @C13 didWait == 1 ==> req.URL.Host == waitedHost
 //@   local fbWaited int = 0
 //@   after recv(feedbackChan)#1: fbWaited = 1
 //@   assert SetStatus(item)#4: [after-feedback] @C02 config.config.WARCWriteAsync || fbWaited == 1 // C02: with synchronous WARC writing the URL is marked archived only after the WARC writer signalled that the records are written
